@@ -111,5 +111,5 @@ CanonicalFixpoint == WellFormed(doc) /\ DocEq(Canonical(doc), doc) /\ Bounded(do
 Obs(d, p) == [extract |-> Extract(d, p), contains |-> ContainsPath(d, p), len |-> Length(d),
               type |-> Type(d), keys |-> Keys(d)]
 Emit == PrintT("TR " \o ToJson([pre |-> doc, op |-> act'.op, p |-> act'.p, v |-> act'.v, post |-> doc',
-                                 kind |-> PathKind(doc, act'.p), obs |-> Obs(doc', act'.p), step |-> step']))
+                                 kind |-> IF act'.op = "patch" THEN PatchKind(doc, act'.v) ELSE PathKind(doc, act'.p), obs |-> Obs(doc', act'.p), step |-> step']))
 =============================================================================
